@@ -256,7 +256,9 @@ and why (each with an evaluated counterexample below):
   elements by Go interface equality, which sees the element type of a nested slice);
 * "agree" instead of "equal": a fixed-array needle against an ordered map with a fixed-array key is
   `unmodelled` (`comparableV`) while the generic slice gives `false`; `sort`/`sort_natural` answer
-  `unmodelled` for more than 12 elements with ties that differ in their encoding;
+  `unmodelled` for more than 12 elements with ties that differ in their encoding (up to 12 elements —
+  Go's insertion sort, modelled exactly — they respect the equivalence exactly:
+  `sortWith_rel_short`, `sortNaturalWith_rel_short`);
 * `d = false`: drops nested in containers are exposed by `fmt.Sprint` (printing a map, a string
   filter applied to an array), and a drop that yields a drop by `values.Equal`. -/
 theorem run_std_rep_independent_partial (allowed : Bytes → Bool) (huniq : allowed (ArrF.bn "uniq") = false)
